@@ -255,6 +255,18 @@ theorem reload_fail_atomic_partial (w : World) (c : Config) (k : Nat) (hclean : 
   simp only [reactorReload, cfgReload, hclean, Bool.false_eq_true, if_false, parseAll_settled w _ hs]
   exact ⟨trivial, trivial, trivial, trivial⟩
 
+/-- A fault in the very first statement of the file: nothing was parsed, so neighbors, RIBs and peers
+    are untouched and the parser stays usable — but `configuration.processes` is emptied (the
+    rollback installs the process list parsed so far). -/
+theorem reload_fail_first_line (w : World) (c : Config) (hclean : w.dirty = false) :
+    (reactorReload w c (some .firstLine)).2 = false ∧
+    (reactorReload w c (some .firstLine)).1.nbrs = w.nbrs ∧
+    (reactorReload w c (some .firstLine)).1.ribs = w.ribs ∧
+    (reactorReload w c (some .firstLine)).1.peers = w.peers ∧
+    (reactorReload w c (some .firstLine)).1.dirty = false ∧
+    (reactorReload w c (some .firstLine)).1.procs = [] := by
+  simp [reactorReload, cfgReload, hclean]
+
 /-- A failed reload never tells the peers anything: whatever the fault, `Reactor.reload()` leaves
     `reactor._peers` alone (sessions are not torn down by a failed reload). -/
 theorem reload_fail_keeps_peers (w : World) (c : Config) (f : Fault) :
